@@ -1,5 +1,11 @@
 """Per-property registry used by run.py: driver, rule text, trusted base, projections."""
 
+import re as _re
+
+def strip_cls(line):
+    """verification group: the model appends its error class (diagnostic only); compare verdict, URLs and Options.Now only"""
+    return _re.sub(r" cls=\S*$", "", line)
+
 PROPS = {
     "C15": {
         "rule": "exhaustive grid report{err,0,1,7,8,9} x quote{err,0,1,9} x status{0,in-flight,error,unavailable,5,2^63+5} x OutLen{0,1,5006,16383,16384,16385,2^32-1} x buffer{pattern,left-in-place,random} through client.GetRawQuote with a scripted client.Device, plus random scripts, the 12 provider behaviours and GetQuote on the sample quote; a case is non-trivial when the report request succeeded (the quote request is reached); distinct = distinct (script outcome tuple, buffer kind)",
@@ -169,3 +175,6 @@ MANIFEST_TEXT['C19'] = {'text': 'Lean theorems over all config shapes, flag toke
          "the library's verdicts (per-case tables from in-process calls), the network (dead proxy / failing getter). The tool has no verification-time flag, "
          'so with collateral only exit 2/3 are reachable; exit 0/4 are exercised without collateral under the embedded root and a generated root bundle.',
  'technique': 'Lean 4 proof (decision table + merge) + differential correspondence at process level'}
+
+# internal: base honest-world run of the verification group (not a property check; used to validate the world generator)
+PROPS["V"] = {"project": strip_cls, "rule": "honest worlds at the four option settings", "no_escalation": True}
